@@ -183,9 +183,22 @@ func (s *Stream) Next() (fen, source string) {
 		}
 		return s.Roots[0], "root"
 	case 3:
+		// the position BEFORE a double push that lands beside an enemy pawn: random situations, the constructed
+		// pin / discovery geometries, and the board-edge (wrap) geometries
 		for {
-			if ec, ok := posgen.EPDirected(s.Rng); ok {
-				return ec.Pos.FEN(), "epdirected-pre"
+			switch s.Rng.IntN(3) {
+			case 0:
+				if ec, ok := posgen.EPDirected(s.Rng); ok {
+					return ec.Pos.FEN(), "epdirected-pre"
+				}
+			case 1:
+				if ec, _, ok := posgen.EPGeometry(s.Rng); ok {
+					return ec.Pos.FEN(), "epgeometry-pre"
+				}
+			default:
+				if ec, _, ok := posgen.EPWrap(s.Rng); ok {
+					return ec.Pos.FEN(), "epwrap-pre"
+				}
 			}
 		}
 	default:
